@@ -611,9 +611,14 @@ where
         &mut self,
         diff: &Diff<T>,
     ) -> Result<(), Self::Error> {
-        self.insert_records(diff.patch.records(), true).await?;
-
-        let computed = self.tree().head()?;
+        // Verify against the checkpoint before touching
+        // the stored events so a refused request changes nothing
+        let mut tree = CommitTree::new();
+        for record in diff.patch.records() {
+            tree.insert(*record.commit().as_ref());
+        }
+        tree.commit();
+        let computed = tree.head()?;
         let verified = computed == diff.checkpoint;
         if !verified {
             return Err(Error::CheckpointVerification {
@@ -622,6 +627,8 @@ where
             }
             .into());
         }
+
+        self.insert_records(diff.patch.records(), true).await?;
 
         Ok(())
     }
